@@ -48,4 +48,11 @@ TimeoutOK(c) == c.ret \in {26, 0} /\ c.ms <= 1000 * c.timeout + c.slack_ms /\ (c
 StackSweepOK(c) ==
   /\ \A k \in 1..Len(c.rets) : c.rets[k] \in {0, 25}
   /\ \A k \in 1..(Len(c.rets) - 1) : c.rets[k] = 0 => c.rets[k + 1] = 0
+\* size of the code of a regular expression (jumps are 16-bit): the same shape with bodies of growing size is accepted up to some
+\* size and rejected with ERROR_REGULAR_EXPRESSION_TOO_LARGE (45) above it - and an expression that was accepted matches what
+\* it should (c.steps[k].hit: the planted occurrences were reported with their lengths)
+ReSizeSweepOK(c) ==
+  /\ \A k \in 1..Len(c.steps) : c.steps[k].outcome \in {0, 45}
+  /\ \A k \in 1..(Len(c.steps) - 1) : c.steps[k].outcome = 45 => c.steps[k + 1].outcome = 45
+  /\ \A k \in 1..Len(c.steps) : c.steps[k].outcome = 0 => c.steps[k].hit
 =============================================================================
